@@ -5,7 +5,7 @@
   seedcheck.py keep <worktree> <seed-id>    copy patch.diff, demo test, meta.json to /verif/seeded/<seed-id>/
 """
 import sys, os, subprocess, shutil, json, glob, re
-ENV = dict(os.environ, GOFLAGS="-mod=mod", GOPROXY="off", GOSUMDB="off", GOTOOLCHAIN="local")
+ENV = dict(os.environ, GOFLAGS="-mod=mod -trimpath", GOPROXY="off", GOSUMDB="off", GOTOOLCHAIN="local")
 def sh(cmd, cwd, **kw):
     return subprocess.run(cmd, cwd=cwd, env=ENV, shell=isinstance(cmd, str), stdout=subprocess.PIPE, stderr=subprocess.STDOUT, text=True, **kw)
 def demo_info(wt):
